@@ -182,6 +182,11 @@ def main():
              "serves_properties": [c["property_id"] for c in checks],
              "kind_free_text": "Rust binary: proptest 1.11 TestRunner per worker thread (fixed seeds derived from VERIF_SEED), bounded exhaustive enumerations, "
                                "independent RFC reference codecs as oracles, monitoring ObjectWriter, counting allocator, hang watchdog, replay of saved cases"},
+            {"name": "libfuzzer-stage", "path": "/verif/fuzz",
+             "serves_properties": ["C04", "C06"],
+             "kind_free_text": "cargo-fuzz (nightly, libFuzzer + ASan) targets c04_sequence / c06_parse calling the same oracle functions of the harness library "
+                               "(props::c04::run_bytes, props::c06::run_bytes); run by tools/fuzz_stage.sh as the last stage of `./check C04|C06 thorough` "
+                               "(8 campaigns bounded by -runs, seeds derived from VERIF_SEED); artifacts are re-run by the stable binary and become ordinary replay files"},
         ],
         "checks": checks,
         "not_applicable": na,
